@@ -95,8 +95,11 @@ def compare(run, bench, v, kwargs_pv, want, witness, kind):
                       dict(witness, library=got.to_json(), expected=want.to_json()), None)
         return None
     st, er = harness.model_encode(fam, want)
+    if st == "undefined":
+        run.count("pack_skipped_model_undefined")
+        return pkt
     pr = harness.lib_pack(pkt)
-    if st == "undefined" or pr.status == "timeout":
+    if pr.status == "timeout":
         return pkt
     run.count("packs_compared")
     if st == "ok":
